@@ -857,8 +857,11 @@ def c05(tier):
     for n in range(1, L + 1):
         for t in itertools.product(CLASS_SIGMA, repeat=n):
             st = "".join(t)
-            procs = [{"N": N, "chunks": ch} for N in (1, 2, 3, 4, 8) for ch in ([], [1] * n)] if "\n" in st else \
-                    [{"N": N, "chunks": []} for N in (1, 2, 4)]
+            if tier == "quick":
+                procs = [{"N": N, "chunks": ch} for N in (1, 2, 3, 4, 8) for ch in ([], [1] * n)] if "\n" in st else \
+                        [{"N": N, "chunks": []} for N in (1, 2, 4)]
+            else:
+                procs = [{"N": N, "chunks": ch} for N in (1, 3, 8) for ch in ([], [1] * n)] if "\n" in st else [{"N": 2, "chunks": []}]
             cases.append({"kind": "multi", "iface": "tiny", "in": b(st), "writers": writers, "procs": procs})
     # (2) messages of the main interface with small writers and buffers (responses that do not fit)
     mw = [{"k": "rec"}, {"k": "std"}] + [{"k": "heapless", "cap": c} for c in (0, 1, 2, 3, 4, 5, 6, 7, 8, 16, 64)] + \
@@ -1069,6 +1072,9 @@ def tree_check(prop, tier):
     descs.append(wide)
     gen = os.path.join(C.HARNESS, "treegen", "src", "gen")
     os.makedirs(gen, exist_ok=True)
+    os.makedirs(os.path.join(C.HARNESS, "ambig", "src"), exist_ok=True)
+    if not os.path.exists(os.path.join(C.HARNESS, "ambig", "src", "lib.rs")):
+        open(os.path.join(C.HARNESS, "ambig", "src", "lib.rs"), "w").write("")
     mods = [(d["name"], G.iface_module(d)) for d in descs]
     src, ranges = module_ranges([("_hdr", "// GENERATED\n")] + mods + [("_reg", G.registry(descs))])
     with open(os.path.join(gen, "mod.rs"), "w") as f:
@@ -1114,6 +1120,7 @@ def tree_check(prop, tier):
                 d2 = set_desc("a%04dr" % k, pool, list(reversed(x["chosen"])), x["std"], x["err"])
                 amods.append((d2["name"], G.plain_module(d2), d2))
         src, aranges = module_ranges([("_hdr", "// GENERATED: every module must be rejected by the macro\n")] + [(n, t) for n, t, _ in amods])
+        os.makedirs(os.path.join(C.HARNESS, "ambig", "src"), exist_ok=True)
         with open(os.path.join(C.HARNESS, "ambig", "src", "lib.rs"), "w") as f:
             f.write(src)
         rc, msgs, err = cargo_json("ambig", C.HARNESS)
